@@ -265,6 +265,31 @@ void NetSim::Pump(int p)
     }
 }
 
+bool NetSim::ProcessOnce(int p)
+{
+    PeerRec& P = m_peers.at(p);
+    if (P.reaped || P.node->fDisconnect) return false;
+    P.node->fPauseSend = false;
+    bool more = m_connman->ProcessMessagesOnce(*P.node);
+    // answers pushed during message processing sit in the send buffer until the next SendMessagesTo/Pump drops it (they are already recorded)
+    return more;
+}
+
+void NetSim::SendMessagesTo(int p)
+{
+    PeerRec& P = m_peers.at(p);
+    if (P.reaped || P.node->fDisconnect) return;
+    m_connman->FlushSendBuffer(*P.node);
+    sim.m_node.peerman->SendMessages(*P.node);
+    m_connman->FlushSendBuffer(*P.node);
+    if (P.pending_pong && P.spec.auto_pong && !P.node->fDisconnect) {
+        uint64_t nonce = *P.pending_pong;
+        P.pending_pong.reset();
+        CSerializedNetMsg m = NetMsg::Make(NetMsgType::PONG, nonce);
+        Inject(P, NetMsgType::PONG, m.data);
+    }
+}
+
 bool NetSim::SendRaw(int p, const std::string& type, std::vector<uint8_t> payload, bool pump)
 {
     PeerRec& P = m_peers.at(p);
